@@ -38,7 +38,7 @@ const GX: [u8; 32] = [
 fn pk_with_tag(tag: u8) -> [u8; 33] {
     let mut b = [0u8; 33];
     b[0] = tag;
-    b[1..].copy_from_slice(&GX);
+    put(&mut b[1..], &GX);
     b
 }
 
